@@ -19,8 +19,13 @@ _TRANS = set()
 
 
 def worker_init():
+    import gc
     from . import vxpm
     vxpm.install()
+    # executions collect their own garbage at tear-down (deterministically); nothing is collected in between
+    gc.collect()
+    gc.freeze()
+    gc.disable()
 
 
 def scripts_of(scen):
@@ -117,6 +122,9 @@ def run_item(item):
     if r.get("harness_error") and "Nondeterminism" in r["harness_error"]:
         return {"nondeterminism": r["harness_error"], "widths": r["widths"]}
     viol = analyze(scen, r, set(item["props"]))
+    if "C16" in item["props"]:
+        from .woracle import analyze_index
+        viol += analyze_index(scen, r)
     out = {"widths": r["widths"], "violations": viol, "outcome": hashlib.sha256(outcome(scen, r).encode()).hexdigest()[:16],
            "steps": len(r["widths"])}
     if item.get("want_events"):
@@ -148,49 +156,67 @@ class Search:
         self.budget_s = budget_s
         self.max_steps_seen = 0
 
-    def explore(self, scen, policies=("FIFO",), bound=1, cap=None, kill_points=False, kill_bound=0):
-        name = scen["name"]
-        for policy in policies:
-            frontier = [({}, None)]          # (schedule, expected widths prefix)
-            done_bound = -1
-            total = 0
-            for d in range(bound + 1):
-                if not frontier:
-                    done_bound = bound
-                    break
-                if cap is not None and total + len(frontier) > cap:
-                    self.capped.append({"scenario": name, "policy": policy, "bound_not_completed": d, "frontier": len(frontier), "cap": cap})
-                    break
+    def explore(self, scen, policies=("FIFO",), bound=1, cap=None):
+        self.explore_block([scen], policies, bound, cap)
+
+    def explore_block(self, scens, policies=("FIFO",), bound=1, cap=None):
+        """Level-by-level exploration of several scenarios at once (one pool wave per deviation level)."""
+        # frontier: (scenario index, policy) -> list of (schedule, expected widths prefix)
+        fr = {(si, pol): [({}, None)] for si in range(len(scens)) for pol in policies}
+        totals = {k: 0 for k in fr}
+        done = {k: -1 for k in fr}
+        stopped = set()
+        for d in range(bound + 1):
+            items, owners = [], []
+            for k, frontier in fr.items():
+                if k in stopped or not frontier:
+                    if k not in stopped and done[k] == d - 1:
+                        done[k] = bound      # nothing left to deviate: every larger bound is complete too
+                        stopped.add(k)
+                    continue
+                name = scens[k[0]]["name"]
+                if cap is not None and totals[k] + len(frontier) > cap:
+                    self.capped.append({"scenario": name, "policy": k[1], "bound_not_completed": d, "frontier": len(frontier), "cap": cap})
+                    stopped.add(k)
+                    continue
                 if self.budget_s is not None and time.time() - self.t0 > self.budget_s:
-                    self.capped.append({"scenario": name, "policy": policy, "bound_not_completed": d, "frontier": len(frontier), "reason": "time budget"})
-                    break
-                items = [{"scen": scen, "policy": policy, "schedule": sch, "expect": exp, "props": self.props} for sch, exp in frontier]
-                outs = self.pool.map("engines.explore:run_item", items)
-                total += len(items)
-                self.executions += len(items)
-                nxt = []
-                for it, o in zip(items, outs):
-                    if "nondeterminism" in o:
-                        # confirm: run the same schedule again; two different answers = the harness does not own all nondeterminism
-                        raise HarnessError(f"nondeterminism while replaying {it['schedule']} of {name}/{policy}: {o['nondeterminism']}")
-                    self.outcomes.setdefault(name, set()).add(o["outcome"])
-                    self.max_steps_seen = max(self.max_steps_seen, o["steps"])
-                    for prop, key, msg in o["violations"]:
-                        if key == "HARNESS":
-                            raise HarnessError(f"{name}/{policy} schedule {it['schedule']}: {msg}")
-                        self.violations.append((prop, key, msg, {"scen": scen, "policy": policy, "schedule": it["schedule"]}))
-                    if d < bound:
-                        sch = it["schedule"]
-                        start = (max(map(int, sch)) + 1) if sch else 0
-                        w = o["widths"]
-                        for i in range(start, len(w)):
-                            for alt in range(1, w[i]):
-                                s2 = dict(sch)
-                                s2[i] = alt
-                                nxt.append((s2, w[: i + 1]))
-                frontier = nxt
-                done_bound = d
-            self.completed.setdefault(name, {})[policy] = done_bound
+                    self.capped.append({"scenario": name, "policy": k[1], "bound_not_completed": d, "frontier": len(frontier), "reason": "time budget"})
+                    stopped.add(k)
+                    continue
+                for sch, exp in frontier:
+                    items.append({"scen": scens[k[0]], "policy": k[1], "schedule": sch, "expect": exp, "props": self.props})
+                    owners.append(k)
+                totals[k] += len(frontier)
+            if not items:
+                break
+            outs = self.pool.map("engines.explore:run_item", items)
+            self.executions += len(items)
+            nxt = {k: [] for k in fr}
+            for it, k, o in zip(items, owners, outs):
+                name = it["scen"]["name"]
+                if "nondeterminism" in o:
+                    raise HarnessError(f"nondeterminism while replaying {it['schedule']} of {name}/{k[1]}: {o['nondeterminism']}")
+                self.outcomes.setdefault(name, set()).add(o["outcome"])
+                self.max_steps_seen = max(self.max_steps_seen, o["steps"])
+                for prop, key, msg in o["violations"]:
+                    if key == "HARNESS":
+                        raise HarnessError(f"{name}/{k[1]} schedule {it['schedule']}: {msg}")
+                    self.violations.append((prop, key, msg, {"scen": it["scen"], "policy": k[1], "schedule": it["schedule"]}))
+                if d < bound:
+                    sch = it["schedule"]
+                    start = (max(map(int, sch)) + 1) if sch else 0
+                    w = o["widths"]
+                    for i in range(start, len(w)):
+                        for alt in range(1, w[i]):
+                            s2 = dict(sch)
+                            s2[i] = alt
+                            nxt[k].append((s2, w[: i + 1]))
+            for k in fr:
+                if k not in stopped and fr[k]:
+                    done[k] = d
+                fr[k] = nxt[k]
+        for k in fr:
+            self.completed.setdefault(scens[k[0]]["name"], {})[k[1]] = done[k]
 
     def explore_kills(self, scen, policy="FIFO", base_schedules=({},), restart_bound=0):
         """Kill the first scheduler process before every scheduling step of each base schedule, then run the restart
